@@ -50,6 +50,52 @@ def gen_case(seed):
     return {"family": family, "ast": ast, "mode": src.pick(MODES)}
 
 
+def deep_mutation(node, src):
+    """The same term with one operator changed at nesting depth >= 2 (so the two terms agree on the outer levels of their
+    types): exercises whatever is remembered between two dispatches of look-alike terms."""
+    from vf.lang import positions, replace_at
+
+    swaps_un = {"neg": ["exp", "abs"], "exp": ["neg", "abs"], "abs": ["neg", "exp"], "log": ["sqrt"], "sqrt": ["log"], "tanh": ["sigmoid"], "sigmoid": ["tanh"]}
+    swaps_bin = {"add": ["mul", "sub"], "mul": ["add"], "sub": ["add"], "max": ["min"], "min": ["max"], "logaddexp": ["add"]}
+    cands = []
+    for path, sub in positions(node):
+        if len(path) < 2:
+            continue
+        if sub[0] == "un" and sub[1] in swaps_un:
+            cands.append((path, ("un", src.pick(swaps_un[sub[1]])) + tuple(sub[2:])))
+        elif sub[0] == "bin" and sub[1] in swaps_bin:
+            cands.append((path, ("bin", src.pick(swaps_bin[sub[1]])) + tuple(sub[2:])))
+    if not cands:
+        return None
+    path, new = src.pick(cands)
+    out = replace_at(node, path, new)
+    typeof(out)
+    return out
+
+
+def gen_case_pair(seed):
+    """Two look-alike programs run one after the other in one process (half of the time in reverse order)."""
+    src = SeedSource(seed)
+    c = gen_case(src.pick(range(2**30)))
+    # rules whose patterns constrain the third nesting level and deeper live in the Gaussian / Integrate / Finitary families
+    for _ in range(6):
+        if c["family"] in ("gauss_int", "gauss_chain", "shaped") or src.pick([0, 0, 1]):
+            break
+        c = gen_case(src.pick(range(2**30)))
+    if c["family"] in ("delta",):
+        return c
+    try:
+        ast2 = deep_mutation(c["ast"], src)
+    except Exception:  # noqa: BLE001
+        ast2 = None
+    if ast2 is None:
+        return c
+    if src.pick([False, True]):
+        c["ast"], ast2 = ast2, c["ast"]
+    c["ast2"] = ast2
+    return c
+
+
 DELTA_PROGS = ["d+f", "f+d", "d-f", "dd", "dd+f", "d+(d+f)", "reduce", "reduce_rev", "reduce2", "integrate", "independent", "subs", "subs_var"]
 
 
@@ -316,13 +362,14 @@ class C02(Prop):
     cases = {"quick": 4800, "thorough": 80000}
 
     def strategy(self, tier):
-        return st.integers(0, 2**40).map(robust_gen(gen_case))
+        single = st.integers(0, 2**40).map(robust_gen(gen_case))
+        return st.one_of(single, single, single, st.integers(0, 2**40).map(robust_gen(gen_case_pair)))
 
     def describe(self, case):
         if case["family"] == "delta":
             ds = [f"Delta({d['name']}:{'real' + str(d['shape']) if d['real'] else 'bint' + str(d['size'])}, batch={[tuple(b) for b in d['batch']]}, point={d['point'][:6]}, ld={d['ld'][:4]})" for d in (case["d1"], case["d2"])]
             return f"[delta/{case['prog']}] d1={ds[0]} d2={ds[1]} f over {[tuple(x) for x in case['fins']]} f_uses_w={case['f_uses_w']} subs_off={case['subs_off']}"
-        return f"[{case['family']}/{case['mode']}] {show(case['ast'])}"
+        return f"[{case['family']}/{case['mode']}] {show(case['ast'])}" + (f"  THEN  {show(case['ast2'])}" if case.get("ast2") is not None else "")
 
     def finalize(self, coverage):
         from vf.recorder import registered_rules
@@ -347,6 +394,10 @@ class C02(Prop):
                     yield dict(case, **{key: dict(d, batch=[], ld_batch=[], point=d["point"][: (2 if d["shape"] else 1)], ld=d["ld"][:1])})
             if case["fins"]:
                 yield dict(case, fins=[])
+            return
+        if case.get("ast2") is not None:
+            yield {k: v for k, v in case.items() if k != "ast2"}
+            yield dict({k: v for k, v in case.items() if k != "ast2"}, ast=case["ast2"])
             return
         for c in ast_shrinks(case["ast"]):
             yield dict(case, ast=c)
@@ -397,12 +448,19 @@ class C02(Prop):
                     delta_program(case)
                 else:
                     run_program(node, mode)
+                    if case.get("ast2") is not None:
+                        stt.count("pair-of-look-alike-programs")
+                        run_program(case["ast2"], mode)
         except Exception as e:
             stt.decline("program-raised:" + innermost_funsor_frame(e))
         nonneg = case.get("sem", ("", ""))[0] in ("max", "min") or case["family"] != "semiring"
         # non-semiring families use mixed-sign points except where max/min reductions meet products (oracle rule)
         nonneg = case.get("sem", ("", ""))[0] in ("max", "min")
         seen = set()
+        seen_types = set()
+        from vf.recorder import dispatched_interpretations
+
+        interps_by_name = {i.__name__: i for i in dispatched_interpretations()}
         fired = stt.notes.setdefault("rules_fired", [])
         for iname, fn, cls, args, result in rec.firings:
             name = f"{iname}:{rule_name(fn)}"
@@ -413,6 +471,26 @@ class C02(Prop):
                 continue
             if not isinstance(result, Funsor):
                 continue
+            # the rule that fired is the one an uncached resolution of the same argument types selects (a rule applied
+            # outside its pattern may "preserve" nothing at all)
+            try:
+                from funsor.typing import deep_type, get_origin, typing_wrap
+
+                interp = interps_by_name[iname]
+                disp = interp.registry.registry.get(get_origin(cls))
+                if disp is not None:
+                    types = tuple(map(typing_wrap, map(deep_type, args)))
+                    tkey = (iname, id(disp), types)
+                    if tkey not in seen_types:
+                        seen_types.add(tkey)
+                        fresh = disp.dispatch(*types)
+                        stt.count("dispatch-rechecked")
+                        if fresh is not fn and getattr(fresh, "default", fresh) is not getattr(fn, "default", fn):
+                            raise Violation(f"rule-fired-outside-its-pattern|{name}", f"{name} fired for {getattr(cls, '__name__', cls)} on ({', '.join(type(a).__name__ for a in args)}) although resolution without the dispatch cache selects {rule_name(fresh) if fresh is not None else None}; program {self.describe(case)[:300]}")
+            except Violation:
+                raise
+            except Exception:  # noqa: BLE001
+                stt.count("dispatch-recheck-not-possible")
             if getattr(cls, "__name__", "") == "Approximate":
                 # the reflected Approximate mangles its (still visible) variables: open finding of C05
                 stt.count("skipped:Approximate(open finding C05)")
